@@ -1,3 +1,473 @@
 package main
 
-func cmdCheck(args []string) int { return 2 }
+import (
+	"bufio"
+	"encoding/json"
+	"flag"
+	"fmt"
+	"os"
+	"path/filepath"
+	"sort"
+	"strings"
+	"time"
+)
+
+type finding struct {
+	kind  string // "finding" or "fixed"
+	prop  string
+	obl   string // obligation name pattern (for findings)
+	text  string
+}
+
+func loadFindings(path string) []finding {
+	f, err := os.Open(path)
+	if err != nil {
+		return nil
+	}
+	defer f.Close()
+	var out []finding
+	sc := bufio.NewScanner(f)
+	sc.Buffer(make([]byte, 1<<20), 1<<20)
+	for sc.Scan() {
+		l := strings.TrimSpace(sc.Text())
+		if l == "" || strings.HasPrefix(l, "#") {
+			continue
+		}
+		var fd finding
+		switch {
+		case strings.HasPrefix(l, "finding:"):
+			fd.kind = "finding"
+			l = strings.TrimSpace(l[len("finding:"):])
+		case strings.HasPrefix(l, "fixed:"):
+			fd.kind = "fixed"
+			l = strings.TrimSpace(l[len("fixed:"):])
+		default:
+			continue
+		}
+		for _, f := range strings.Fields(l) {
+			if strings.HasPrefix(f, "property=") {
+				fd.prop = f[len("property="):]
+			}
+			if strings.HasPrefix(f, "obligation=") {
+				fd.obl = f[len("obligation="):]
+			}
+		}
+		fd.text = l
+		out = append(out, fd)
+	}
+	return out
+}
+
+type evidence struct {
+	PropertyID  string                 `json:"property_id"`
+	Tier        string                 `json:"tier"`
+	Seed        int                    `json:"seed"`
+	Level       string                 `json:"level"`
+	Coverage    map[string]interface{} `json:"coverage"`
+	Assumptions []string               `json:"assumptions"`
+	WallS       float64                `json:"wall_s"`
+	Violations  int                    `json:"violations"`
+}
+
+type propPlan struct {
+	ID    string
+	Level string // "proof" or "other"
+	Extra []string // extra engines: "sweep", "layout"
+	Meta  []string // paper (meta) steps listed as assumptions
+}
+
+var standingAssumptions = []string{
+	"GOARCH=amd64: int/uint/uintptr are 64-bit; all Go integers are modelled as bit-vectors of their exact width (wrap-around exact, nothing treated as mathematical)",
+	"no object is larger than 2^40 elements; allocation succeeds; distinct make/new/composite-literal results are distinct objects",
+	"heap shape: pointer, slice and interface fields of an instance point to objects owned by that instance, pairwise distinct unless a //@ shape declaration says otherwise; the caller's []byte arguments do not alias the instance's buffers",
+	"contract-level havoc preserves the points-to shape: a callee under contract does not re-point pointer/slice/interface fields to objects the caller already holds (nil-ness, bounds and contents are unconstrained)",
+	"callers do not use one instance from two goroutines or re-enter it from the destination/source callbacks",
+	"termination is proved only where a decreases clause is listed; every other result is partial correctness",
+	"trusted base: gocv itself (SSA->SMT translation, memory model, frame computation), go/ssa, go/types, types.SizesFor(gc,amd64), z3 4.8.12 / z3 5.1.0 / cvc5 1.0.3, the Go compiler and runtime",
+	"assembly bodies are not verified: every assembly routine is an assumed contract (listed below when used)",
+}
+
+func cmdCheck(args []string) int {
+	fs := flag.NewFlagSet("check", flag.ExitOnError)
+	prop := fs.String("prop", "", "property id")
+	tier := fs.String("tier", "quick", "quick|thorough")
+	repo := fs.String("repo", repoDir, "repository")
+	out := fs.String("evidence", "", "evidence file (default /verif/evidence/<prop>.json)")
+	verbose := fs.Bool("v", false, "verbose")
+	noEvidence := fs.Bool("no-evidence", false, "do not write evidence (self-test runs)")
+	fs.Parse(args)
+	if *prop == "" {
+		fmt.Fprintln(os.Stderr, "check: --prop required")
+		return 2
+	}
+	t0 := time.Now()
+	seed := 0
+	if s := os.Getenv("VERIF_SEED"); s != "" {
+		fmt.Sscanf(s, "%d", &seed)
+	}
+	timeout := 20
+	if *tier == "thorough" {
+		timeout = 120
+	}
+	cs, err := LoadContracts(*repo, externSpec)
+	if err != nil {
+		fmt.Fprintln(os.Stderr, "gocv:", err)
+		return 2
+	}
+	r := runProperty(*prop, *tier, *repo, cs, timeout, *verbose)
+	r.wall = time.Since(t0).Seconds()
+	code := r.report(*prop, *tier, seed, *out, *noEvidence)
+	return code
+}
+
+type propRun struct {
+	prop       string
+	obls       []*Obligation
+	funcs      map[string]bool // function@cfg verified
+	genErrors  []string        // things that prevent obligation generation (reported as violations)
+	notes      []string
+	trusted    map[string]string
+	wall       float64
+	solverTime float64
+	byBackend  map[string]int
+	explain    []string
+	extraObls  []*Obligation
+	tier       string
+	cachedDup  int
+}
+
+func runProperty(prop, tier, repo string, cs *Contracts, timeout int, verbose bool) *propRun {
+	r := &propRun{prop: prop, funcs: map[string]bool{}, trusted: map[string]string{}, byBackend: map[string]int{}, tier: tier}
+	for _, e := range cs.Errs {
+		r.genErrors = append(r.genErrors, "contract file: "+e)
+	}
+	// roots: functions with a clause tagged with the property
+	roots := map[string]bool{}
+	for k, c := range cs.Funcs {
+		if c.IsVar {
+			continue
+		}
+		tagged := false
+		for _, cl := range append(append([]*Clause{}, c.Requires...), c.Ensures...) {
+			for _, t := range cl.Tags {
+				if t == prop {
+					tagged = true
+				}
+			}
+		}
+		for _, ls := range c.Loops {
+			for _, cl := range ls.Invariants {
+				for _, t := range cl.Tags {
+					if t == prop {
+						tagged = true
+					}
+				}
+			}
+		}
+		if tagged {
+			roots[k] = true
+		}
+	}
+	type job struct {
+		key string
+		cfg string
+	}
+	seenHash := map[string]*Obligation{}
+	for _, cfg := range configs {
+		p, err := LoadProg(repo, cfg.name, cfg.tags, cs)
+		if err != nil {
+			r.genErrors = append(r.genErrors, fmt.Sprintf("cannot load configuration %s: %v", cfg.name, err))
+			continue
+		}
+		work := []string{}
+		for k := range roots {
+			work = append(work, k)
+		}
+		sort.Strings(work)
+		done := map[string]bool{}
+		var batch []*Obligation
+		for len(work) > 0 {
+			k := work[0]
+			work = work[1:]
+			if done[k] {
+				continue
+			}
+			done[k] = true
+			ct := cs.Funcs[k]
+			if ct == nil {
+				continue
+			}
+			if ct.Trusted {
+				r.trusted[k] = ct.TrustedWhy
+				continue
+			}
+			fn := p.funcs[k]
+			if fn == nil {
+				// functions that exist only in one configuration (e.g. assembly stubs) are fine if they exist in the other
+				if !existsInOtherCfg(k, cs) {
+					r.genErrors = append(r.genErrors, fmt.Sprintf("%s@%s: function under contract does not exist", k, cfg.name))
+				}
+				continue
+			}
+			if len(fn.Blocks) == 0 {
+				r.genErrors = append(r.genErrors, fmt.Sprintf("%s@%s: function under contract has no Go body and is not marked trusted", k, cfg.name))
+				continue
+			}
+			res := VerifyFunc(p, fn)
+			r.funcs[k+"@"+cfg.name] = true
+			for _, e := range res.SpecErrs {
+				r.genErrors = append(r.genErrors, fmt.Sprintf("%s@%s: %s", k, cfg.name, e))
+			}
+			for _, e := range res.Missing {
+				r.genErrors = append(r.genErrors, fmt.Sprintf("%s@%s: contract refers to %s which does not exist in the function", k, cfg.name, e))
+			}
+			for _, n := range res.Notes {
+				r.notes = append(r.notes, fmt.Sprintf("%s@%s: %s", k, cfg.name, n))
+			}
+			for _, t := range res.Trusted {
+				if c := cs.Funcs[t]; c != nil {
+					r.trusted[t] = c.TrustedWhy
+				}
+			}
+			nonVac := 0
+			for _, o := range res.Obls {
+				if !o.Vacuity {
+					nonVac++
+				}
+			}
+			if nonVac == 0 {
+				r.genErrors = append(r.genErrors, fmt.Sprintf("%s@%s: no obligation was generated (vacuous contract)", k, cfg.name))
+			}
+			for _, o := range res.Obls {
+				h := o.QueryHash()
+				if prev, ok := seenHash[h]; ok {
+					o.dupOf = prev
+					r.cachedDup++
+				} else {
+					seenHash[h] = o
+					batch = append(batch, o)
+				}
+				r.obls = append(r.obls, o)
+			}
+			for _, c := range res.Called {
+				if !done[c] {
+					work = append(work, c)
+				}
+			}
+		}
+		solveAll(batch, timeout, 16)
+	}
+	for _, o := range r.obls {
+		if o.dupOf != nil {
+			o.Status, o.Solver, o.Output = o.dupOf.Status, o.dupOf.Solver, o.dupOf.Output
+			o.Time = 0
+		}
+	}
+	return r
+}
+
+func existsInOtherCfg(k string, cs *Contracts) bool { return false }
+
+func sanitizeFile(s string) string {
+	var b strings.Builder
+	for _, r := range s {
+		if (r >= 'a' && r <= 'z') || (r >= 'A' && r <= 'Z') || (r >= '0' && r <= '9') || r == '.' || r == '-' || r == '_' {
+			b.WriteRune(r)
+		} else {
+			b.WriteByte('_')
+		}
+	}
+	x := b.String()
+	if len(x) > 180 {
+		x = x[len(x)-180:]
+	}
+	return x
+}
+
+func (r *propRun) report(prop, tier string, seed int, evPath string, noEvidence bool) int {
+	findings := loadFindings(filepath.Join(verifDir, "known_findings.txt"))
+	total, discharged := 0, 0
+	var failed []*Obligation
+	vacOK, vacBad := 0, 0
+	tagged := 0
+	for _, o := range r.obls {
+		if o.Vacuity {
+			if o.Status == "unsat" {
+				vacBad++
+				failed = append(failed, o)
+			} else {
+				vacOK++
+			}
+			continue
+		}
+		total++
+		for _, t := range o.Tags {
+			if t == prop {
+				tagged++
+			}
+		}
+		if o.Status == "unsat" {
+			discharged++
+			if o.dupOf == nil {
+				r.byBackend[o.Solver]++
+				r.solverTime += o.Time
+			}
+		} else {
+			failed = append(failed, o)
+		}
+	}
+	violations := 0
+	known := 0
+	replayDir := filepath.Join(verifDir, "replays", prop)
+	var lines []string
+	for _, o := range failed {
+		isKnown := false
+		for _, f := range findings {
+			if f.kind == "finding" && f.prop == prop && f.obl != "" && strings.Contains(o.Name, f.obl) {
+				lines = append(lines, fmt.Sprintf("KNOWN-FINDING: property=%s %s", prop, f.text))
+				isKnown = true
+				known++
+				break
+			}
+		}
+		if isKnown {
+			continue
+		}
+		violations++
+		os.MkdirAll(replayDir, 0o755)
+		path := filepath.Join(replayDir, sanitizeFile(o.Name)+".json")
+		rep := map[string]interface{}{
+			"property": prop, "obligation": o.Name, "kind": o.Kind, "clause": o.Text, "position": o.Pos, "configuration": o.Cfg,
+			"status": o.Status, "solver": o.Solver, "solver_output": truncate(o.Output, 20000), "tags": o.Tags,
+		}
+		suffix := " no-failing-input-found"
+		if o.Vacuity {
+			rep["explanation"] = "vacuity guard: the function's exit is unreachable under its assumptions (contradictory requires/assumed contracts)"
+		} else if o.Status == "sat" {
+			m := modelFor(o, 20)
+			rep["model"] = truncate(m, 60000)
+			rep["replay"] = "not attempted: no replay generator for this obligation's pre-state (model attached)"
+		}
+		writeJSON(path, rep)
+		lines = append(lines, fmt.Sprintf("VIOLATION property=%s replay=%s%s", prop, path, suffix))
+	}
+	for i, e := range r.genErrors {
+		violations++
+		os.MkdirAll(replayDir, 0o755)
+		path := filepath.Join(replayDir, fmt.Sprintf("generation-error-%d.json", i+1))
+		writeJSON(path, map[string]interface{}{"property": prop, "obligation": "generation", "explanation": e})
+		lines = append(lines, fmt.Sprintf("VIOLATION property=%s replay=%s no-failing-input-found", prop, path))
+	}
+	if total == 0 && len(r.genErrors) == 0 {
+		violations++
+		lines = append(lines, fmt.Sprintf("VIOLATION property=%s replay=%s no-failing-input-found", prop, "none(no obligations generated: vacuous check)"))
+	}
+	sort.Strings(lines)
+	for _, l := range lines {
+		fmt.Println(l)
+	}
+	// evidence
+	var fnames []string
+	for k := range r.funcs {
+		fnames = append(fnames, describeFunc(k))
+	}
+	sort.Strings(fnames)
+	var assumed []string
+	var tk []string
+	for k := range r.trusted {
+		tk = append(tk, k)
+	}
+	sort.Strings(tk)
+	for _, k := range tk {
+		assumed = append(assumed, fmt.Sprintf("assumed contract: %s (%s)", describeFunc(k), r.trusted[k]))
+	}
+	var samples []interface{}
+	cnt := 0
+	for _, o := range r.obls {
+		if o.Vacuity || o.dupOf != nil {
+			continue
+		}
+		isTagged := false
+		for _, t := range o.Tags {
+			if t == prop {
+				isTagged = true
+			}
+		}
+		if !isTagged {
+			continue
+		}
+		samples = append(samples, map[string]interface{}{"obligation": o.Name, "clause": o.Text, "status": o.Status, "solver": o.Solver, "time_s": round3(o.Time), "query_hash": o.QueryHash()})
+		cnt++
+		if cnt >= 6 {
+			break
+		}
+	}
+	if len(samples) == 0 {
+		for _, o := range r.obls {
+			if !o.Vacuity {
+				samples = append(samples, map[string]interface{}{"obligation": o.Name, "clause": o.Text, "status": o.Status, "solver": o.Solver, "time_s": round3(o.Time)})
+				if len(samples) >= 4 {
+					break
+				}
+			}
+		}
+	}
+	sort.Strings(r.notes)
+	level := "proof"
+	cov := map[string]interface{}{
+		"obligations":              total,
+		"discharged":               discharged,
+		"obligations_tagged":       tagged,
+		"duplicate_queries_shared": r.cachedDup,
+		"checker_cmd":              fmt.Sprintf("/verif/bin/gocv check --prop %s --tier %s", prop, tier),
+		"trusted_base":             []string{"gocv (this repository, /verif/gocv)", "golang.org/x/tools/go/ssa v0.29.0", "go/types", "z3 4.8.12", "z3 5.1.0", "cvc5 1.0.3"},
+		"functions_under_contract": fnames,
+		"by_backend":               r.byBackend,
+		"solver_time_s":            round3(r.solverTime),
+		"known_failing":            known,
+		"vacuity":                  map[string]int{"exits_reachable": vacOK, "vacuous_functions": vacBad},
+		"engine_notes":             dedupe(r.notes),
+		"samples":                  samples,
+		"explanation":              "contract-based deductive verification: every obligation generated from the SSA of the current working tree (both build configurations) for the functions in the property's cone is discharged by an SMT solver; loops are cut by invariants, calls are replaced by callee contracts",
+	}
+	ev := evidence{PropertyID: prop, Tier: tier, Seed: seed, Level: level, Coverage: cov, Assumptions: append(append([]string{}, standingAssumptions...), assumed...), WallS: round3(r.wall), Violations: violations}
+	if !noEvidence {
+		if evPath == "" {
+			evPath = filepath.Join(verifDir, "evidence", prop+".json")
+		}
+		os.MkdirAll(filepath.Dir(evPath), 0o755)
+		writeJSON(evPath, ev)
+	}
+	fmt.Printf("gocv: property %s tier %s: %d obligations, %d discharged, %d failing (%d known), %d generation errors, %d functions, %.1fs\n",
+		prop, tier, total, discharged, len(failed), known, len(r.genErrors), len(r.funcs), r.wall)
+	if violations > 0 {
+		return 1
+	}
+	return 0
+}
+
+func dedupe(xs []string) []string {
+	var out []string
+	seen := map[string]bool{}
+	for _, x := range xs {
+		if !seen[x] {
+			seen[x] = true
+			out = append(out, x)
+		}
+	}
+	return out
+}
+
+func truncate(s string, n int) string {
+	if len(s) > n {
+		return s[:n] + "...[truncated]"
+	}
+	return s
+}
+
+func round3(f float64) float64 { return float64(int(f*1000+0.5)) / 1000 }
+
+func writeJSON(path string, v interface{}) {
+	b, _ := json.MarshalIndent(v, "", " ")
+	os.WriteFile(path, append(b, '\n'), 0o644)
+}
